@@ -36,7 +36,8 @@ MUTANTS.append(dict(name="alias-only-for-registered-names", file=H, expect="R6.2
     old="                elif is_error_code(status_code_val):", new="                elif status_code_val in HTTP_EXCEPTION_NAMES:"))
 MUTANTS += [
     dict(name="shared-core-by-string-prefix", file="emitters/exceptions_emitter.py", expect="R6.6",
-         old="                return client_dir != core_path and client_dir not in core_path.parents", new="                return not str(core_path).startswith(str(client_dir))"),
+         old="        return bool(self.overall_project_root)\n",
+         new="        if not self.overall_project_root:\n            return False\n        from pathlib import Path\n        core_path = Path(core_dir).resolve()\n        project_root = Path(self.overall_project_root).resolve()\n        client_dir = project_root.joinpath(*(client_package_name or '').split('.'))\n        return not str(core_path).startswith(str(client_dir))\n"),
     dict(name="error-code-helper-unbounded", file="core/http_status_codes.py", expect="R6.4", old="    return 400 <= code < 600", new="    return code >= 400"),
     dict(name="error-message-decoded-strictly", file="core/http_transport.py", expect="R6.5", old="message=response.text", new="message=response.content.decode()"),
 ]
